@@ -125,8 +125,8 @@ func buildC07Golden(t *testing.T) *c07Golden {
 				}
 				m.SetDebug(d == 1)
 			}
-			for _, q := range c07ReqKinds {
-				row[d] = append(row[d], c07Digest(serve(m, q)))
+			for k := range c07ReqKinds {
+				row[d] = append(row[d], c07Exec(m, c07Op{Kind: "req", Arg: k}, nil))
 			}
 			if d == 0 {
 				g.nf = append(g.nf, c07CfgDigest(m.Config()))
@@ -253,9 +253,12 @@ func (w *c07Writer) Write(b []byte) (int, error) {
 }
 
 type c07Handler struct {
-	sched c07Sched
-	calls int
+	sched  c07Sched
+	calls  int
+	marker string
 }
+
+var c07MarkerSeq atomic.Int64
 
 func (h *c07Handler) ServeHTTP(w http.ResponseWriter, r *http.Request) {
 	h.calls++
@@ -274,6 +277,21 @@ func (h *c07Handler) ServeHTTP(w http.ResponseWriter, r *http.Request) {
 			n += len(s)
 		}
 	}
+	// ... and adds a field line of its own to every header that is already there (append-only, as handlers do with
+	// Vary or Access-Control-Expose-Headers); the marker is unique per exchange, the digest shows it as "<own-marker>":
+	// another exchange's marker in this response means that two exchanges share a header slice
+	// (lesson of seeded change C07-i: a per-configuration slice with spare capacity handed to the wrapped handler)
+	if h.marker != "" {
+		hdr := w.Header()
+		for k, v := range hdr {
+			if len(v) > 0 {
+				hdr[k] = append(v, h.marker)
+			}
+		}
+		if h.sched != nil {
+			h.sched.hit("handler:after-add")
+		}
+	}
 	w.Write([]byte("ok"))
 	if h.sched != nil {
 		h.sched.hit("handler:exit")
@@ -286,10 +304,10 @@ func c07Exec(m *cors.Middleware, op c07Op, sched c07Sched) string {
 	switch op.Kind {
 	case "req":
 		w := &c07Writer{rw: rw{h: http.Header{}}, sched: sched}
-		h := &c07Handler{sched: sched}
+		h := &c07Handler{sched: sched, marker: "verif-marker-" + strconv.FormatInt(c07MarkerSeq.Add(1), 10)}
 		w.rw.inner = h
 		wrappedOnce(m).ServeHTTP(w, c07ReqKinds[op.Arg].httpReq())
-		return c07Digest(w.obs(h.calls))
+		return strings.ReplaceAll(c07Digest(w.obs(h.calls)), h.marker, "<own-marker>")
 	case "reconf":
 		var err error
 		switch op.Arg {
